@@ -3,7 +3,7 @@
    coq/C12/Model.v); proofs in coq/C05/Proofs*.v.  The id generator and the sampler are oracles: the pure
    theorems quantify over an arbitrary sampler function [samp] and arbitrary generated ids [gsid] [gtid]. *)
 From V Require Import C10.ProofsCtx C10.ProofsStack C10.ProofsProps.
-From V Require Import C05.Glue C05.ProofsCore C05.ProofsWorld C05.ProofsMeets.
+From V Require Import C05.Glue C05.ProofsCore C05.ProofsWorld C05.ProofsMeets C05.ProofsWire.
 From V Require Import Gen.Consts.
 From Coq Require Import Lia.
 
@@ -217,3 +217,15 @@ Theorem model_meets_spec : forall enabled random s n ops,
   spec_case (cfg_of enabled random s) ops (run_case (cfg_of enabled random s) n ops) = [].
 Proof. exact ProofsMeets.model_meets_spec. Qed.
 Print Assumptions model_meets_spec.
+
+(* --- and through the token format: printing the model's observation and parsing it the way run_spec parses the
+   implementation's line gives the observation back, so on every case line that parses the extracted checker
+   reports nothing about the extracted model's output *)
+Theorem observation_roundtrip : forall cf n ops,
+  parse_case_obs ops (print_case (run_case cf n ops)) = Some (run_case cf n ops).
+Proof. exact ProofsWire.observation_roundtrip. Qed.
+Print Assumptions observation_roundtrip.
+
+Theorem model_meets_spec_wire : forall l : list tok, parse_case l <> None -> run_spec l (run_model l) = [].
+Proof. exact ProofsWire.model_meets_spec_wire. Qed.
+Print Assumptions model_meets_spec_wire.
